@@ -297,15 +297,20 @@ func addReference(
 		refCommits []*Commit
 		parent     *list.Element
 	)
-	// collect all ref commits to add
+	// collect all ref commits to add. The walk must not stop at the first
+	// commit that is already known: other branches of the walk (e.g. the
+	// second parent of a merge) may still lead to commits that no previous
+	// reference has contributed.
 	commitIter := commitIterFunc(refCommit)
-	for c, e := commitIter.Next(); e == nil; {
-		parent, exists = commitsLookup[c.Hash]
+	for c, e := commitIter.Next(); e == nil; c, e = commitIter.Next() {
+		known, exists := commitsLookup[c.Hash]
 		if exists {
-			break
+			if parent == nil {
+				parent = known
+			}
+			continue
 		}
 		refCommits = append(refCommits, c)
-		c, e = commitIter.Next()
 	}
 	commitIter.Close()
 
